@@ -161,7 +161,28 @@ def d2_order(ctx):
         okt = {a.canon(), b.canon()} == {want.canon(), "S"}
     ctx.check(okt, fi, tests[0], t, "any disagreement between announced and physical size triggers the correction",
               f"mismatch test `{src(t)}` is not nc*ns*itemsize != nbytes: shorter or longer files slip through uncorrected", key="mismatch-test")
-    # the flat rewrite is inside the mismatch branch and not conditional on anything but meta presence
+    # the rewrite is conditional on nothing but the size disagreement (and the presence of metadata): an option that only concerns logging must not skip it
+    from sa import guards as GD
+    import itertools
+    at = GD.Atoms()
+    pcs = [GD.path_condition(cfg, cfg.node_for(st), at) for st in stores]
+    pc_all = GD.Or(*pcs) if pcs else GD.FALSE
+    names = GD.atoms_of(pc_all)
+    if stores and len(names) <= 12:
+        allowed = [k for k in names if any(w in k for w in ("nbytes", "st_size", "_raw.shape", "is_mtscomp", "self.meta", "fileSizeBytes"))]
+        for k in [x for x in names if x not in allowed]:
+            others = [x for x in names if x != k]
+            depends = None
+            for bits in itertools.product((False, True), repeat=len(others)):
+                val = dict(zip(others, bits))
+                if GD._eval(pc_all, dict(val, **{k: True})) != GD._eval(pc_all, dict(val, **{k: False})):
+                    depends = val
+                    break
+            st0 = stores[0]
+            ctx.check(depends is None, fi, st0, f"{src(st0)} reached under {GD.show(pc_all)[:140]}", f"`{k}` does not decide whether the duration is repaired",
+                      f"whether the duration is rewritten (`{src(st0)}`) depends on `{k}` (the rewrite is reached under: {GD.show(pc_all)[:200]}): for one value of it a file whose size "
+                      "disagrees with its metadata keeps the announced sample count - np.memmap then raises (truncated file) or samples beyond the announcement stay hidden",
+                      key="rewrite-unconditional:" + k[:40], name_free=True)
     fr = repo.fn("spikeglx.Reader.rl")
     for r in returns_of(fr.node):
         ev = _Ev(facts=Facts())
